@@ -104,6 +104,9 @@ pub enum Topo {
     Combine(usize),
     /// number of inner sources the outer puppet carries
     Flatten(usize),
+    /// flatten whose outer emits the *same* inner source value n times (a restart-on-trigger
+    /// pattern): puppet 0 is the outer, puppet 1 the one inner, subscribed once per emission
+    FlattenRepeat(usize),
     /// number of probes
     Share(usize),
     ForEach,
@@ -120,7 +123,7 @@ impl Topo {
             Topo::Merge(_) => "merge".into(),
             Topo::Concat(_) => "concat".into(),
             Topo::Combine(_) => "combine".into(),
-            Topo::Flatten(_) => "flatten".into(),
+            Topo::Flatten(_) | Topo::FlattenRepeat(_) => "flatten".into(),
             Topo::Share(_) => "share".into(),
             Topo::ForEach => "for_each".into(),
             Topo::FromIter(_) => "from_iter".into(),
@@ -134,6 +137,7 @@ impl Topo {
             Topo::Concat(n) => format!("concat!({} members)", n),
             Topo::Combine(n) => format!("combine!({} members)", n),
             Topo::Flatten(n) => format!("flatten(outer with {} inners)", n),
+            Topo::FlattenRepeat(n) => format!("flatten(outer emitting the same inner source {} times)", n),
             Topo::Share(n) => format!("share({} sinks)", n),
             Topo::ForEach => "for_each".into(),
             Topo::FromIter(Some(n)) => format!("from_iter(0..{})", n),
@@ -201,6 +205,8 @@ pub struct Info {
     pub outer: Option<usize>,
     pub inners: Vec<usize>,
     pub unop: Option<UnOp>,
+    /// flatten: every emission of the outer is the same inner puppet (subscribed once per emission)
+    pub repeat_inner: bool,
 }
 
 pub struct Built {
@@ -349,6 +355,19 @@ pub fn build(topo: &Topo, pspecs: &[PuppetSpec], lens: &[usize], probe_specs: &[
             let out: Src<V> = Arc::new(callbag::flatten(outer.source()));
             puppets.push(Box::new(outer));
             puppets.extend(inner_boxes);
+            mk_probes(&world, &op, &out, probe_specs, &mut probes, &mut subscribe);
+        },
+        Topo::FlattenRepeat(n) => {
+            let p = mk(1, &op);
+            let src = p.source();
+            let inner_items: Vec<(Val, Src<V>)> = (1..=*n).map(|k| (Val::one(k as i64), Arc::clone(&src))).collect();
+            info.inners = (1..=*n).collect();
+            info.repeat_inner = true;
+            let outer: Arc<Puppet<Src<V>>> = Puppet::new(&world, 0, &op, pspecs[0].clone(), inner_items);
+            info.outer = Some(0);
+            let out: Src<V> = Arc::new(callbag::flatten(outer.source()));
+            puppets.push(Box::new(outer));
+            puppets.push(Box::new(p));
             mk_probes(&world, &op, &out, probe_specs, &mut probes, &mut subscribe);
         },
         Topo::Share(_) => {
@@ -507,5 +526,5 @@ pub fn gen_puppet_spec(c: &mut Chooser, allow_late: bool, modes: &[Mode], fins: 
         fin = Fin::End;
     }
     let burst = if mode == Mode::Listen && c.chance(1, 3) { 1 + c.choose(3) } else { 0 };
-    PuppetSpec { mode, late, fin, burst }
+    PuppetSpec { mode, late, fin, burst, eager_end: false }
 }
